@@ -258,9 +258,13 @@ class _Num(Sym):
         return self._bin(o, lambda a, b: b * a)
 
     def __truediv__(self, o):
+        if isinstance(o, _Num) and _CTX is not None and _CTX.ex.nonlinear:
+            return _purified_div(self, o)
         return self._bin(o, lambda a, b: a / b, int_ok=False)
 
     def __rtruediv__(self, o):
+        if _CTX is not None and _CTX.ex.nonlinear:
+            return _purified_div(o, self)
         return self._bin(o, lambda a, b: b / a, int_ok=False)
 
     def __neg__(self):
@@ -273,6 +277,8 @@ class _Num(Sym):
 
     def __abs__(self):
         e = lift(self)[0]
+        if _CTX is not None and _CTX.ex.fork_ite:
+            return self if _CTX.decide(e >= 0) else -self
         r = z3.If(e >= 0, e, -e)
         return mk_int(r) if self.kind == 'int' else mk_real(r, self.tag)
 
@@ -314,6 +320,19 @@ class _Num(Sym):
 
     def __bool__(self):
         return ctx().decide(lift(self)[0] != 0)
+
+
+def _purified_div(a, b):
+    """a / b with a symbolic denominator, for nlsat: a fresh quotient q with
+    q * b == a (pure polynomial constraint) instead of a division term.  The
+    denominator being zero is its own path (numpy would produce inf/nan)."""
+    c = ctx()
+    be = as_real(b)
+    if not c.decide(be != 0):
+        raise ZeroDivisionError("float division by zero")
+    q = c.fresh_real('quot')
+    c.assume(q * be == as_real(a))
+    return SymReal(q, _tag_of(a, b))
 
 
 def _tag_of(a, b):
@@ -614,11 +633,15 @@ def sym_sqrt(x):
         return SymFP(z3.fpSqrt(RNE, x.e))
     if isinstance(x, (SymInt, SymReal)):
         c = ctx()
-        xe = as_real(x)
+        xe = z3.simplify(as_real(x))
+        for (a, v) in c.sqrts:
+            if a.eq(xe):
+                return SymReal(v)
         if not c.decide(xe >= 0):
             raise Unsupported("sqrt of a negative real (NaN) in REAL mode")
         s = c.fresh_real('sqrt')
         c.assume(z3.And(s >= 0, s * s == xe))
+        c.sqrts.append((xe, s))
         return SymReal(s)
     return math.sqrt(x)
 
@@ -691,6 +714,9 @@ def ite(c, a, b):
     if isinstance(c, bool):
         return a if c else b
     ce = as_bool(c)
+    if _CTX is not None and _CTX.ex.fork_ite:
+        # case split instead of an If-term (keeps nonlinear obligations free of If for nlsat)
+        return a if _CTX.decide(ce) else b
     if isinstance(a, SymFP) or isinstance(b, SymFP):
         return SymFP(z3.If(ce, fp_const(a), fp_const(b)))
     if isinstance(a, SymBits) or isinstance(b, SymBits):
@@ -884,6 +910,7 @@ class PathCtx:
         self.reached = set()        # obligation names reached on this path
         self.outputs = {}           # name -> term/py value (for witness validation)
         self.logs = []              # (argument term, value term) of ln applications
+        self.sqrts = []             # (argument term, value term) of sqrt applications
         self.norm_hints = []        # preferred extra constraints for witnesses / counterexamples
         self.log_range_obligation = None   # name of the obligation guarding arguments of ln (finiteness configs)
 
@@ -1311,7 +1338,7 @@ class Explorer:
     def __init__(self, config_name='', config_params=None, branch_timeout_ms=20000,
                  prove_timeout_ms=60000, max_fanout=64, max_paths=None,
                  max_cex=5, split_depth=None, prefix=None, dump_smt=0,
-                 witness_every=0, seed=0, nonlinear=False, robust=False):
+                 witness_every=0, seed=0, nonlinear=False, robust=False, fork_ite=False):
         self.config_name = config_name
         self.config_params = config_params or {}
         self.branch_timeout_ms = branch_timeout_ms
@@ -1337,6 +1364,7 @@ class Explorer:
         self.nonlinear = nonlinear
         self.robust = robust
         self.witness_skipped = 0
+        self.fork_ite = fork_ite
 
     def run(self, fn):
         global _CTX
